@@ -63,6 +63,7 @@ class Acc:
         self.exhaustive_parts: List[str] = []
         self.sizes: Dict[str, int] = {}
         self._sample_every = 1
+        self.bulk_keys: Dict[str, int] = {}
 
     # -- counting -------------------------------------------------------
     def case(self, case: Any, nontrivial: bool, labels: Any = (), key: Any = None) -> None:
@@ -78,6 +79,20 @@ class Acc:
 
     def count(self, n: int = 1) -> None:
         self.evaluations += n
+
+    def bulk(self, key: Any, evaluations: int, nontrivial: int, sample: Any = None, labels: Any = ()) -> None:
+        """Account for a family of cases that are distinct by construction (e.g. all cut sets of one message):
+        `key` identifies the family; the family's non-trivial members are counted once, however often the family recurs
+        (also across shards: the parent merges by key)."""
+        self.evaluations += evaluations
+        for lab in labels:
+            self.labels[lab] += 1
+        h = jsonio.chash(key)
+        if nontrivial > self.bulk_keys.get(h, 0):
+            self.bulk_keys[h] = nontrivial
+            if sample is not None and len(self.samples) < MAX_SAMPLES and len(self.bulk_keys) % self._sample_every == 0:
+                self.samples.append(jsonio.brief(sample))
+                self._sample_every = min(self._sample_every * 7, 5000)
 
     def label(self, *labs: str) -> None:
         for lab in labs:
@@ -122,7 +137,7 @@ class Acc:
             'labels': dict(self.labels), 'samples': self.samples, 'dontcare': self.dontcare,
             'excluded': dict(self.excluded), 'violations': jsonio.enc(self.violations),
             'notes': self.notes, 'budget_hit': self.budget_hit,
-            'exhaustive_parts': self.exhaustive_parts, 'sizes': self.sizes,
+            'exhaustive_parts': self.exhaustive_parts, 'sizes': self.sizes, 'bulk_keys': self.bulk_keys,
         }
 
 
@@ -217,7 +232,11 @@ def run_check(mod: Any, tier: str, seed: int, jobs: int = 16) -> int:
     exhaustive_parts: List[str] = []
     sizes: Dict[str, int] = {}
     budget_hit = False
+    bulk: Dict[str, int] = {}
     for r in sorted(results, key=lambda x: x['spec']):
+        for k_, v_ in r.get('bulk_keys', {}).items():
+            if v_ > bulk.get(k_, 0):
+                bulk[k_] = v_
         evaluations += r['evaluations']
         nontrivial.update(r['nontrivial'])
         labels.update(r['labels'])
@@ -260,7 +279,7 @@ def run_check(mod: Any, tier: str, seed: int, jobs: int = 16) -> int:
     explanation = getattr(mod, 'EXPLANATION', '')
     cov = {
         'evaluations': evaluations,
-        'distinct_nontrivial': len(nontrivial),
+        'distinct_nontrivial': len(nontrivial) + sum(bulk.values()),
         'rule': mod.RULE,
         'samples': samples if samples else ['(no non-trivial sample was produced)'],
         'labels': dict(sorted(labels.items())),
@@ -286,7 +305,7 @@ def run_check(mod: Any, tier: str, seed: int, jobs: int = 16) -> int:
         json.dump(ev, fh, indent=1, sort_keys=True)
         fh.write('\n')
     print('%s tier=%s seed=%d evaluations=%d distinct_nontrivial=%d dont_care=%d excluded=%s violations=%d wall=%.1fs'
-          % (pid, tier, seed, evaluations, len(nontrivial), dontcare, dict(excluded), n_viol, time.time() - t0))
+          % (pid, tier, seed, evaluations, len(nontrivial) + sum(bulk.values()), dontcare, dict(excluded), n_viol, time.time() - t0))
     return rc
 
 
